@@ -25,7 +25,7 @@ func TestMain(m *testing.M) {
 			"the failure fails too), removed (missing) dependencies, dependency labels that name nothing (no such target, package without a BUILD file), dependency cycles written in BUILD files, dry "+
 			"runs, sub-target builds and repeated runs of one loaded project; targets run in parallel. Oracle per build and label: the event sequence is "+
 			"UpToDate | Evaluating Print* (Succeeded|Failed) | Failed, a lone Failed only for a target with a missing dependency or on/behind a cycle, "+
-			"nothing at all only downstream of a failure; a visited target with a dependency that names nothing and no other failing dependency reports exactly a lone Failed; every Print lies between that label's Evaluating and its completion and the printed lines equal "+
+			"nothing at all only downstream of a failure; a requested target with a dependency that names nothing reports exactly a lone Failed, and a failing run of an existing target carries at least one Failed event; every Print lies between that label's Evaluating and its completion and the printed lines equal "+
 			"the expected lines exactly once in order; Evaluating for a function target iff its body started (real runs); a dependent's first event follows "+
 			"its dependencies' last events; RunDone exactly once per run, after the requested target's last event, carrying Run's error. Non-trivial = "+
 			">=2 targets executed and some output was written in >=2 chunks that split a line. Distinct by case JSON.",
@@ -214,10 +214,10 @@ func checkRun(m *projsim.Model, label string, events []projsim.Event, log []proj
 	if idx := byLabel[label]; len(idx) > 0 && idx[len(idx)-1] > doneSeq {
 		return fail("rundone-early", "RunDone was delivered before the last event of the requested target %s", label)
 	}
-	// A visited target with a dependency that names nothing reports a lone failure. The requested target
-	// is visited, and so is every dependency of a visited target (a target requests all its dependencies
-	// at once, before it looks at any outcome). The rule is applied where nothing else interferes: every
-	// other dependency of the target completed without a failure in this run.
+	// A dependency that names nothing is reported: by the requested target itself with a lone Failed when
+	// the dependency is its own (the requested target is certainly visited; which other targets are, after
+	// a failure, is the implementation's business), and in any case a run that fails although the requested
+	// target exists carries at least one Failed event - a failure nobody reported is a missing event.
 	{
 		completedOK := func(l string) bool {
 			idx := byLabel[l]
@@ -227,25 +227,33 @@ func checkRun(m *projsim.Model, label string, events []projsim.Event, log []proj
 			k := events[idx[len(idx)-1]].Kind
 			return k == "UpToDate" || k == "Succeeded"
 		}
-		seen := map[int]bool{}
-		var visit func(i int) *ev.Verdict
-		visit = func(i int) *ev.Verdict {
-			if seen[i] || m.Targets[i].Removed {
-				return nil
+		for i := range m.Targets {
+			if m.Label(i) != label || m.Targets[i].Removed {
+				continue
 			}
-			seen[i] = true
+			if runErr != "" {
+				reported := false
+				for _, e := range events {
+					if e.Kind == "Failed" {
+						reported = true
+					}
+				}
+				if !reported {
+					return fail("failure-not-reported", "the run of %s failed (%s) but no target reported a failure", label, runErr)
+				}
+			}
 			t := m.Targets[i]
 			missing := len(t.GhostDeps) > 0
 			othersOK := true
 			for _, d := range allDeps(m, i) {
 				if m.Targets[d].Removed {
 					missing = true
-				} else if !completedOK(m.Label(d)) {
+				} else if len(byLabel[m.Label(d)]) > 0 && !completedOK(m.Label(d)) {
 					othersOK = false
 				}
 			}
 			for _, sl := range m.SourceLabels(i) {
-				if !completedOK(sl) {
+				if len(byLabel[sl]) > 0 && !completedOK(sl) {
 					othersOK = false
 				}
 			}
@@ -256,20 +264,7 @@ func checkRun(m *projsim.Model, label string, events []projsim.Event, log []proj
 					for _, j := range idx {
 						ks = append(ks, events[j].Kind)
 					}
-					return fail("missing-dependency-not-reported", "%s was visited and one of its dependencies names nothing, but its events are %v, want a lone Failed", m.Label(i), ks)
-				}
-			}
-			for _, d := range allDeps(m, i) {
-				if f := visit(d); f != nil {
-					return f
-				}
-			}
-			return nil
-		}
-		for i := range m.Targets {
-			if m.Label(i) == label && !m.Targets[i].Removed {
-				if f := visit(i); f != nil {
-					return f
+					return fail("missing-dependency-not-reported", "one of the dependencies of the requested target %s names nothing, but its events are %v, want a lone Failed", m.Label(i), ks)
 				}
 			}
 		}
